@@ -158,6 +158,24 @@ inline Eigen::MatrixXd rotate_cols(const Eigen::MatrixXd& m, long k) {
     return o;
 }
 
+// Callback re-entrancy ("intruder"): the library calls back into user code (measurement / state / exogenous models, the
+// function given to the unscented transform).  Nothing forbids that user code from using the library itself, e.g. from
+// running another, unrelated filter object (or another thread doing so at that moment).  A harness sets `intruder` to a
+// closure that performs a complete operation on an independent twin object with OTHER data of the same shapes and calls
+// vf::intrude() from every model callback; the results of the outer operation must not change (hidden state shared
+// between objects: function-local statics, globals).  Deterministic, no threads.  Recursion is cut at depth one.
+struct IntruderState { std::function<void()> fn; int depth = 0; long calls = 0; };
+inline IntruderState& intruder_state() { static IntruderState s; return s; }
+inline void set_intruder(std::function<void()> f) { intruder_state().fn = std::move(f); intruder_state().calls = 0; }
+inline void clear_intruder() { intruder_state().fn = nullptr; }
+inline void intrude() {
+    IntruderState& s = intruder_state();
+    if (!s.fn || s.depth > 0) return;
+    s.depth++; s.calls++;
+    try { s.fn(); } catch (...) { s.depth--; throw; }
+    s.depth--;
+}
+
 // label of the API entry point being exercised (printed by the Eigen assertion handler)
 extern thread_local const char* current_entry;
 struct Entry { const char* prev; explicit Entry(const char* l) : prev(current_entry) { current_entry = l; } ~Entry() { current_entry = prev; } };
